@@ -92,7 +92,7 @@ func c14(cx *Ctx, r *ev.Report) {
 		}
 	}
 	r.Analysed["ir_write_sites"] = len(sites)
-	r.AddFloor("ir_write_sites", len(sites), 3)
+	r.AddFloor("ir_write_sites", len(sites), 1)
 	summaryReport(cx, r, classSet("ldir"))
 	r.Rules = append(r.Rules, rule)
 	r.Explanation = "R after every one of the 1786 specialised prefixes equals the reference: advanced once per opcode fetch (1 unprefixed, 2 for CB/ED/DD/FD, 2 or 3 accepted for DDCB/FDCB, the same for unsupported encodings), modulo 128 with bit 7 kept, as an 8-bit boolean function (all 256 values incl. 0x7F->0x00); I unchanged; operand bytes do not advance R. Repetitions of block instructions and Steps spent halted re-decode the opcode (C07/boundary-pc), so they count again. LD A,I/LD A,R/LD I,A/LD R,A equal the reference (R including the instruction's own fetches, P/V=IFF2, C kept). Every store to IR in the package lies below the decoder."
